@@ -451,4 +451,94 @@ theorem reach_lifts {σ : Sys} {es : List Ev} (h : Reach σ es) : HReach ⟨σ, 
         simpa [hu] using h2
       · exact HReach.other ih rfl hs (fun c k he => hn ⟨c, k, he⟩) (fun w he => hw ⟨w, he⟩)
 
+
+/-! ## the executable hook-level schedule is sound for `HReach` -/
+
+theorem hstep_sound {h h' : HSys} {hs es : List Ev} {a : HAct} {e1 e2 : Option Ev} (hr : HReach h hs es)
+    (hst : hstep h a = some (h', e1, e2)) : HReach h' (hs ++ e1.toList) (es ++ e2.toList) := by
+  cases a with
+  | hookNotify p =>
+    simp only [hstep] at hst
+    split at hst
+    · rename_i c rest htd
+      split at hst
+      · rename_i hc
+        simp only [Option.some.injEq, Prod.mk.injEq] at hst
+        obtain ⟨rfl, rfl, rfl⟩ := hst
+        have hfresh : ∀ c', (p, c') ∉ h.tickets := by
+          intro c' hm
+          have := List.all_eq_true.1 hc.2 _ hm
+          simp at this
+        simpa using HReach.hookNotify hr hc.1 htd hfresh
+      · simp at hst
+    · simp at hst
+  | send p =>
+    simp only [hstep] at hst
+    split at hst
+    · rename_i σ' c k hstep'
+      split at hst
+      · rename_i hm
+        simp only [Option.some.injEq, Prod.mk.injEq] at hst
+        obtain ⟨rfl, rfl, rfl⟩ := hst
+        simpa using HReach.send hr hm hstep'
+      · simp at hst
+    · simp at hst
+  | recv t =>
+    simp only [hstep] at hst
+    split at hst
+    · rename_i σ' w hstep'
+      split at hst
+      · rename_i hc
+        obtain ⟨rfl, hun⟩ := hc
+        simp only [Option.some.injEq, Prod.mk.injEq] at hst
+        obtain ⟨rfl, rfl, rfl⟩ := hst
+        simpa using HReach.recv hr hun hstep'
+      · simp at hst
+    · simp at hst
+  | hookWake t =>
+    simp only [hstep] at hst
+    split at hst
+    · rename_i hun
+      simp only [Option.some.injEq, Prod.mk.injEq] at hst
+      obtain ⟨rfl, rfl, rfl⟩ := hst
+      simpa using HReach.hookWake hr hun
+    · simp at hst
+  | other t ch =>
+    simp only [hstep] at hst
+    split at hst
+    · simp at hst
+    · rename_i hun
+      split at hst
+      · rename_i σ' e hstep'
+        split at hst
+        · simp at hst
+        · rename_i hne
+          simp only [Option.some.injEq, Prod.mk.injEq] at hst
+          obtain ⟨rfl, rfl, rfl⟩ := hst
+          simp only [Bool.or_eq_true, not_or, Bool.not_eq_true] at hne
+          refine HReach.other hr (by simpa using hun) hstep' (fun c k he => ?_) (fun w he => ?_)
+          · subst he; simp [isNotify] at hne
+          · subst he; simp [isWake] at hne
+      · simp at hst
+
+theorem hexec_sound {h0 : HSys} {hs0 es0 : List Ev} (h0r : HReach h0 hs0 es0) {acts : List HAct} {h : HSys}
+    {hs es : List Ev} (hx : hexec h0 acts = some (h, hs, es)) : HReach h (hs0 ++ hs) (es0 ++ es) := by
+  induction acts generalizing h0 hs0 es0 hs es with
+  | nil => simp only [hexec, Option.some.injEq, Prod.mk.injEq] at hx; obtain ⟨rfl, rfl, rfl⟩ := hx; simpa using h0r
+  | cons a rest ih =>
+    simp only [hexec] at hx
+    cases hs1 : hstep h0 a with
+    | none => simp [hs1] at hx
+    | some r =>
+      obtain ⟨h1, e1, e2⟩ := r
+      simp only [hs1] at hx
+      cases hr2 : hexec h1 rest with
+      | none => simp [hr2] at hx
+      | some r2 =>
+        obtain ⟨h2, hs2, es2⟩ := r2
+        simp only [hr2, Option.some.injEq, Prod.mk.injEq] at hx
+        obtain ⟨rfl, rfl, rfl⟩ := hx
+        have := ih (hstep_sound h0r hs1) hr2
+        simpa [List.append_assoc] using this
+
 end NodisVerif.Proofs.BlockProg
